@@ -169,6 +169,8 @@ def run(tier):
                 gp.marginal_likelihood(other)
                 gp.loo_likelihood(other)
                 gp.marginal_likelihood_gradient(other)
+            gm_a, gc_a = gp.gradient(q)                       # (read right after the scores, before anything re-builds the model)
+            dm_a, dv_a = gp.spatial_derivatives(q)
             # ... and other hyper-parameters SET and used in between (compared with a regressor without history), then restored
             gp.set_hyperparameters(other)
             dm_o, dv_o = gp.spatial_derivatives(q)
@@ -188,7 +190,8 @@ def run(tier):
             dm_l, dv_l = gp.spatial_derivatives(qi.tolist())
             ck.case(str(idn) + "again")
             same = lambda a, b: np.asarray(a, dtype=float).shape == np.asarray(b, dtype=float).shape and np.allclose(np.asarray(a, dtype=float), np.asarray(b, dtype=float), rtol=1e-12, atol=1e-12 * scale)
-            if not (path_ok and same(gm_c, gm_b) and same(gc_c, gc_b) and same(dm_c, dm_b) and same(dv_c, dv_b)):
+            if not (path_ok and same(gm_c, gm_b) and same(gc_c, gc_b) and same(dm_c, dm_b) and same(dv_c, dv_b)
+                    and same(gm_a, gm_b) and same(gc_a, gc_b) and same(dm_a, dm_b) and same(dv_a, dv_b)):
                 ck.violation("derivative predictions of the fitted model do not depend on scores evaluated at other hyper-parameters in between",
                              {**idn, "gradient_mean_before": gm_b, "gradient_mean_after": gm_c, "variance_derivative_at_other_hyperpars": dv_o,
                               "same_from_a_regressor_without_history": dv_f}, site="GpRegressor.gradient:stale-state")
